@@ -1,6 +1,7 @@
 package main
 
 import (
+	"strings"
 	"fmt"
 	"go/token"
 	"go/types"
@@ -396,6 +397,34 @@ func (fr *Frame) unbox(iface string, t types.Type, reach string) string {
 	return app("un"+fn, val)
 }
 
+// ctrAtLoad: the allocation bound of a value loaded from lv.  References held in a
+// heap component that has not been written since the function was entered were
+// allocated before entry (the initial heap is closed under reachability), so they
+// are bounded by the initial allocation counter rather than the current one.
+func (fr *Frame) ctrAtLoad(lv *LV, h Heap) string {
+	u := fr.u
+	base := lv
+	for base.kind == lvField {
+		base = base.base
+	}
+	var c, s string
+	switch base.kind {
+	case lvPtr:
+		if u.interior(base.ty) && !u.so.bv {
+			return fr.ctr(h)
+		}
+		c, s = u.memComp(base.ty)
+	case lvElem:
+		c, s = u.elemComp(base.ty)
+	default:
+		return fr.ctr(h)
+	}
+	if strings.HasPrefix(u.comp(h, c, s), "H0_") && u.compInit["ctr"] != "" {
+		return u.compInit["ctr"]
+	}
+	return fr.ctr(h)
+}
+
 func (fr *Frame) execUnOp(x *ssa.UnOp, reach string, h Heap) {
 	u := fr.u
 	so := u.so
@@ -407,7 +436,7 @@ func (fr *Frame) execUnOp(x *ssa.UnOp, reach string, h Heap) {
 		}
 		fr.setVal(x, fr.load(lv, h))
 		v := fr.vals[x]
-		u.assume(u.typeInv(v.T, x.Type(), fr.ctr(h)))
+		u.assume(u.typeInv(v.T, x.Type(), fr.ctrAtLoad(lv, h)))
 	case token.NOT:
 		fr.setVal(x, not(fr.valOf(x.X).T))
 	case token.SUB:
@@ -731,10 +760,10 @@ func (fr *Frame) execSlice(x *ssa.Slice, reach string, h Heap) {
 		} else {
 			high = ln
 		}
-		// NOTE: stricter than Go (which allows high <= cap): the append model
-		// leaves cells between len and cap unspecified, so reslicing beyond len is rejected.
-		fr.safetyOblig("slice-bounds", fmt.Sprintf("0 <= low <= high <= len for %s[...]", x.X.Name()), reach,
-			and(fr.idxLe(so.idxLit(0), low), fr.idxLe(low, high), fr.idxLe(high, ln)))
+		// Go's rule for slices: 0 <= low <= high <= cap.  Cells between len and cap are
+		// whatever the backing array holds (the heap model keeps them).
+		fr.safetyOblig("slice-bounds", fmt.Sprintf("0 <= low <= high <= cap for %s[...]", x.X.Name()), reach,
+			and(fr.idxLe(so.idxLit(0), low), fr.idxLe(low, high), fr.idxLe(high, app("s_cap", s.T))))
 		fr.setVal(x, fmt.Sprintf("(mk_%s %s %s %s %s)", so.sliceSort(), app("s_arr", s.T), fr.idxAdd(app("s_off", s.T), low), fr.idxSub(high, low), fr.idxSub(app("s_cap", s.T), low)))
 	case *types.Pointer:
 		at := xt.Elem().Underlying().(*types.Array)
